@@ -88,8 +88,9 @@ ImplCancelled == /\ Ev("impl-cancelled") /\ Consume
                  /\ sawcancel' = sawcancel \cup {E.i}
                  /\ Keep(<<invoked, before, started, acked, returned, retres, sendret, results, cancelled, pipes, delivered, presults, sdinv, usershut, sdret>>)
 
-\* (third component: the answer had not returned when the pipelined call was made)
-PipeInvoke == /\ Ev("pipe-invoke") /\ Consume /\ pipes' = Append(pipes, <<E.i, E.on, E.on \notin returned>>)
+\* third component: the answer had not returned when the pipelined call was made;
+\* fourth component: the pipelined calls that had been delivered when this one was made
+PipeInvoke == /\ Ev("pipe-invoke") /\ Consume /\ pipes' = Append(pipes, <<E.i, E.on, E.on \notin returned, { delivered[k] : k \in 1..Len(delivered) }>>)
               /\ Keep(<<invoked, before, started, acked, returned, retres, sendret, results, cancelled, sawcancel, delivered, presults, sdinv, usershut, sdret>>)
 QueueSize == 2      \* the driver runs every server with AnswerQueueSize 2
 PipesOn(c) == SelectSeq(pipes, LAMBDA x : x[2] = c)
@@ -103,7 +104,9 @@ PipeDelivered == /\ Ev("pipe-delivered") /\ Consume
                            idx == CHOOSE k \in 1..Len(mine) : mine[k][1] = E.i
                            Blocked(k) == mine[k][3] /\ Cardinality({ j \in 1..k : mine[j][3] }) > QueueSize
                        IN /\ E.i \notin { delivered[k] : k \in 1..Len(delivered) }
-                          /\ \A j \in 1..(idx - 1) : (Blocked(j) /\ Blocked(idx)) \/ mine[j][1] \in { delivered[k] : k \in 1..Len(delivered) }
+                          \* (a call made while an earlier blocked call had still not got through - e.g. during the drain - is concurrent with it too)
+                          /\ \A j \in 1..(idx - 1) : (Blocked(j) /\ (Blocked(idx) \/ mine[j][1] \notin mine[idx][4]))
+                                                      \/ mine[j][1] \in { delivered[k] : k \in 1..Len(delivered) }
                  /\ delivered' = Append(delivered, E.i)
                  /\ Keep(<<invoked, before, started, acked, returned, retres, sendret, results, cancelled, sawcancel, pipes, presults, sdinv, usershut, sdret>>)
 PipeResult == /\ Ev("pipe-result") /\ Consume /\ Lookup(presults, E.i) = "none"
